@@ -6,6 +6,7 @@
 Prints exactly one line starting with ``RESULT `` followed by JSON.
 """
 import collections
+import contextlib
 import importlib.util
 import json
 import os
@@ -30,7 +31,9 @@ def _load(module_file):
     return mod
 
 
-_CALL_RE = re.compile(r'when calling (\w+)\((.*?)\)(?: \(which (returns|raises) (.*)\))?\s*$', re.S)
+_CALL_RE = re.compile(r'when calling (\w+)\((.*?)\)(?: with (crosshair\.patch_to_return\(.*?\)))?'
+                      r'(?: \(which (returns|raises) (.*)\))?\s*$', re.S)
+PATCH_MARK = ' #@patch '
 
 
 def parse_counterexample(message):
@@ -38,7 +41,10 @@ def parse_counterexample(message):
     m = _CALL_RE.search(message)
     if not m:
         return None
-    return m.group(2), (m.group(3) or '') + ' ' + (m.group(4) or ''), m.group(1)
+    args = m.group(2)
+    if m.group(3):   # values CrossHair chose for nondeterministic stdlib calls (e.g. time.time) on this path
+        args += PATCH_MARK + m.group(3)
+    return args, (m.group(4) or '') + ' ' + (m.group(5) or ''), m.group(1)
 
 
 def analyze(module_file, fn_name, timeout, per_path):
@@ -95,8 +101,18 @@ def replay(module_file, fn_name, args_src):
     from engine import rt
     ns = dict(vars(mod))
     ns['float'] = float
+    patch_src = None
+    if PATCH_MARK in args_src:
+        args_src, patch_src = args_src.split(PATCH_MARK, 1)
     try:
         args, kwargs = eval('(lambda *a, **k: (a, k))(%s)' % args_src, ns)
+        patch_ctx = contextlib.nullcontext()
+        if patch_src:
+            import crosshair
+            pns = {'crosshair': crosshair}
+            for name in ('time', 'random', 'os', 'datetime', 'uuid', 'secrets'):
+                pns[name] = __import__(name)
+            patch_ctx = eval(patch_src, pns)
     except Exception as e:
         return {'error': 'cannot evaluate counterexample arguments: %r' % (e,), 'args_src': args_src}
     seen = set()
@@ -110,7 +126,8 @@ def replay(module_file, fn_name, args_src):
     res = {'args_src': args_src}
     sys.setprofile(prof)
     try:
-        ret = fn(*args, **kwargs)
+        with patch_ctx:
+            ret = fn(*args, **kwargs)
         res['ret'] = ret if isinstance(ret, (int, bool, str, type(None))) else repr(ret)
     except Exception as e:
         res['exc'] = '%s: %s' % (type(e).__name__, e)
